@@ -1057,6 +1057,13 @@ class HistoryRunner:
             except BaseException as e:  # noqa: BLE001 - O2: nothing may escape, whatever it is
                 if isinstance(e, (KeyboardInterrupt, SystemExit, MemoryError, WallCap)):
                     raise
+                if isinstance(e, RecursionError) and "kg" in self.tb["rules"]:
+                    # a toolbox with the recursive gadget nests as deep as its input makes it: running
+                    # out of frames there is the ordinary limit of recursive descent (C07 excludes
+                    # it by name), not an operation that raised.  Counted, not judged.  Toolboxes
+                    # without recursion keep the clause: there a RecursionError is a defect.
+                    stats["recursion_limit_reached"] = stats.get("recursion_limit_reached", 0) + 1
+                    return None
                 where = KIND[ATOMS[sim.current_atom][1][0]] if sim.current_atom else (self.kind_of(step[1]) if op == "call" else op)
                 import traceback  # noqa: PLC0415
 
@@ -1105,6 +1112,22 @@ def gen_history(rng: random.Random, tb: dict):
     atoms = list(ATOMS)
     w_comp = rng.choice((0.3, 0.6, 0.8))
     steps = []
+    if rng.random() < 0.05:
+        # DEEP: dozens of entries on the stack (most of them short, so that POP / PEEK_ALL /
+        # DROP* runs go a long way down) over a long periodic text -- whatever an implementation
+        # does differently beyond a size (a fast path for small stacks, records trimmed or
+        # compacted past a length) is out of reach of histories that never hold five entries
+        if not tb.get("trivia") and "kg" not in tb["rules"]:
+            # (not over the recursive gadget: its nesting depth and its backtracking grow with
+            # the length of the text -- RecursionError and exponential time are no C05 matter)
+            text = rng.choice(("a", "b", "ab", "ba", "aab")) * rng.randint(8, 30)
+        for _ in range(rng.choice((12, 20, 40, 70, 130))):
+            if rng.random() < 0.2:
+                steps.append(["seek", rng.randint(0, len(text))])
+            steps.append(["call", rng.choice(("a_pushl_e", "a_pushl_b", "a_push_e", "a_push_a", "a_push_b", "a_pushl_ab", "a_push_r"))])
+            if rng.random() < 0.8:
+                steps.append(["commit"])
+        steps.append(["seek", rng.randint(0, len(text))])
     # prologue: most histories start with a few entries on the stack, some of them durable
     # (committed), some still inside an open bracket that a later `fail` can roll back
     if rng.random() < 0.7:
@@ -1236,6 +1259,7 @@ def run_batch(job) -> dict:
             "mode_runs": stats.get("mode_runs", 0),
             "violating_mode_runs": stats.get("violating_mode_runs", 0),
             "hangs": stats.get("hangs", 0),
+            "recursion_limit_reached": stats.get("recursion_limit_reached", 0),
             "sample_hangs": stats["sample_hangs"],
             "set_transitions": sorted(stats["set_transitions"]),
             "set_nontrivial": sorted(distinct_nt),
@@ -1548,6 +1572,7 @@ class Check:
             "normal_form_rule_applications_checked_O4": acc.get("structure_checked", 0),
             "normal_form_rule_applications_skipped": {"count": acc.get("structure_skipped", 0), "why": "observed child calls did not have the operand shape (operand rule inlined by the optimizer, or entry serials lost)"},
             "failed_operand_evaluations_checked": acc.get("failed_operands_checked", 0),
+            "executions_that_ran_out_of_frames_in_a_recursive_toolbox": {"count": acc.get("recursion_limit_reached", 0), "note": "RecursionError in a toolbox with the recursive cycle gadget is the ordinary limit of recursive descent (excluded by C07's own wording); counted, not judged. In toolboxes without recursion a RecursionError is a violation of 'never raises'."},
             "executions_abandoned_at_wall_cap": {"count": acc.get("hangs", 0), "samples": acc.get("sample_hangs", [])[:2], "note": "a hang of the code under test is a totality matter (C07), not a C05 verdict"},
             "fault_kinds_fired": {
                 "injected rollback of an open enclosing bracket (fail)": acc.get("injected_fail", 0),
